@@ -306,7 +306,7 @@ func c20MobileReader(k *fw.K, round int) {
 	mr := mobile.NewReader(nil, chip)
 	pw, err := mobile.NewPasswordMrz(p.Zone)
 	if err != nil {
-		fw.Bug("mobile password: %v", err)
+		fw.LibFail("mobile-password-rejected", "mobile password constructor rejects valid input: %v", err)
 	}
 	var wg sync.WaitGroup
 	nG := 4 + r.IntN(4)
@@ -364,7 +364,7 @@ func c20Reader(k *fw.K, round int) {
 	rd := reader.NewReader(nil, nfc, trustPool(p.Trust))
 	pw, err := passwordFor(p)
 	if err != nil {
-		fw.Bug("password: %v", err)
+		fw.LibFail("password-rejected", "password constructor rejects valid input: %v", err)
 	}
 	rec := newC20Rec(4)
 	var wg sync.WaitGroup
@@ -419,11 +419,11 @@ func c20Export() {
 		card := p.NewCard(9)
 		res := liveRead(p, card, liveOpts{maxLe: 256}, nil)
 		if res.err != nil || res.docEx == nil || res.docEx.Session.ActiveAuthResult == nil || res.docEx.Session.ActiveAuthResult.Evidence == nil {
-			fw.Bug("cannot produce a genuine export for the verifier workload: %v", res.err)
+			fw.LibFail("genuine-read-failed", "cannot read the conforming chip for the verifier workload: %v", res.err)
 		}
 		b, err := res.docEx.ToCbor()
 		if err != nil {
-			fw.Bug("ToCbor: %v", err)
+			fw.LibFail("export-failed", "ToCbor: %v", err)
 		}
 		c20Blob.blob, c20Blob.trust = b, p.Trust
 		c20Blob.nonce = fmt.Sprintf("%x", res.docEx.Session.ActiveAuthResult.Evidence.Nonce)
@@ -653,7 +653,7 @@ func c20Cold(k *fw.K, round int) {
 		}
 	}
 	if err != nil || !found {
-		fw.Bug("cold-start child failed: %v\n%s", err, tailStr(string(out), 2000))
+		fw.LibFail("cold-start-child-crashed", "the cold-start child process (32 concurrent first uses of the built-in trust store) did not finish: %v\n%s", err, tailStr(string(out), 1500))
 	}
 	k.AddEvals(int64(res.Calls))
 	k.Distinct(fmt.Sprintf("cold|%d|%d", round, procs))
